@@ -59,6 +59,8 @@ class Sgp4(AnalyticalPropagator):
         res_dict = self.orbit._data.copy()
         res_dict["date"] = date
         res_dict["form"] = "cartesian"
+        # SGP4 gives its results in TEME, whatever the frame the orbit was held in
+        res_dict["frame"] = "TEME"
         res_dict.pop("propagator")
 
         return StateVector(result, **res_dict)
